@@ -11,8 +11,8 @@ CONSTANTS
   Faults <- DialFaults
   Spurious = FALSE
   Durs <- Durs013
-  MaxT = 3
-  RespFaults = FALSE
+  MaxT = 4
+  RespFaults = TRUE
   PreResp = TRUE
   Probe = FALSE
   AsBuiltT <- NoT
